@@ -5,8 +5,77 @@ from ..report import Report
 FUNCS = ["markdown_it.rules_block.hr.hr", "markdown_it.rules_block.heading.heading", "markdown_it.rules_block.lheading.lheading", "markdown_it.rules_block.fence.fence", "markdown_it.rules_block.code.code", "markdown_it.rules_block.html_block.html_block", "markdown_it.rules_block.paragraph.paragraph"]
 
 
+def delimiter_stack_obligations(rep):
+    """GUARD (dominance / shape analysis of the real source): the delimiter lists of nested inline tags form a stack.
+    StateInline.push saves the current list on `_prev_delimiters` when it opens a tag (and starts a fresh list) and takes the
+    saved one back - by pop - when it closes a tag; nothing else in the package rebinds either field. With one slot instead of
+    a stack, a tag nested in a tag (an autolink in a link label) would hand the wrong list back, and delimiter pairs of the
+    enclosing text would straddle the link (the engine keeps `_prev_delimiters` opaque, so this discipline is stated here)."""
+    import ast
+
+    from .. import src as S
+    from ..report import Ob
+
+    q = "markdown_it.rules_inline.state_inline.StateInline.push"
+
+    def emit(label, ok, info):
+        rep.obs.append(Ob(oid=f"C02/{q}/GUARD/{label}", kind="GUARD", func=q, backend="vocab", verdict="discharged" if ok else "failed", info=info, solver="dominance / shape analysis of the real source"))
+
+    try:
+        mi, fn, _ = S.resolve_function(q)
+    except S.SourceError as e:
+        rep.obs.append(Ob(oid=f"C02/{q}/GUARD/delimiter-stack", kind="GUARD", func=q, backend="vocab", verdict="undecided", info=str(e), solver="dominance / shape analysis of the real source"))
+        return
+
+    def under(test_src, body):
+        return [st for n in ast.walk(fn) if isinstance(n, ast.If) and ast.unparse(n.test).replace(" ", "") == test_src for st in n.body] if body else []
+
+    closing = [ast.unparse(st) for st in under("nesting<0", True)]
+    opening = [ast.unparse(st) for st in under("nesting>0", True)]
+    ok_pop = "self.delimiters = self._prev_delimiters.pop()" in closing
+    emit("closing-tag-pops-the-saved-list", ok_pop, "a closing tag restores the delimiter list saved by its opener: self.delimiters = self._prev_delimiters.pop()" if ok_pop else f"closing branch is {closing}")
+    ok_push = "self._prev_delimiters.append(self.delimiters)" in opening and "self.delimiters = []" in opening and opening.index("self._prev_delimiters.append(self.delimiters)") < opening.index("self.delimiters = []")
+    emit("opening-tag-pushes-the-current-list", ok_push, "an opening tag saves the current list on the stack, then starts a fresh one" if ok_push else f"opening branch is {opening}")
+    # no other rebinding of the two fields anywhere in the package (the constructor initialises them)
+    others = []
+    for modname in S.all_package_modules():
+        m2 = S.load_module(modname)
+        for qn, f2 in m2.functions.items():
+            for n in ast.walk(f2):
+                tgts = n.targets if isinstance(n, ast.Assign) else ([n.target] if isinstance(n, (ast.AnnAssign, ast.AugAssign)) else [])
+                for t in tgts:
+                    if isinstance(t, ast.Attribute) and t.attr in ("delimiters", "_prev_delimiters") and isinstance(t.value, ast.Name) and t.value.id in ("self", "state"):
+                        where = f"{modname}.{qn}"
+                        if where == q or where.endswith("StateInline.__init__"):
+                            continue
+                        others.append(f"{where}:{n.lineno}")
+    emit("no-other-rebinding", not others, "delimiters / _prev_delimiters are rebound only by push and the constructor" if not others else f"also rebound at {others}")
+    if not (ok_pop and ok_push and not others):
+        w = None
+        try:
+            from markdown_it import MarkdownIt
+
+            for doc in ("[<http://x.y> *d](c)*", "[<ab:c> **d](c)**", "*[<ab:c>*](c)"):
+                toks = MarkdownIt().parseInline(doc)[0].children
+                depth, bad = [], False
+                for t in toks:
+                    if t.nesting == 1:
+                        depth.append(t.type[:-5])
+                    elif t.nesting == -1:
+                        if not depth or depth.pop() != t.type[:-6]:
+                            bad = True
+                if bad or depth:
+                    w = {"doc": doc, "tokens": [t.type for t in toks]}
+                    break
+        except Exception:  # noqa: BLE001
+            pass
+        for lab in ("closing-tag-pops-the-saved-list", "opening-tag-pushes-the-current-list", "no-other-rebinding"):
+            rep.replays[f"C02/{q}/GUARD/{lab}"] = {"lifted": {"arguments": w} if w else {}, "observed": {"outcome": "openers and closers cross in parseInline output" if w else "no crossing stream among the candidate documents"}, "replayed": bool(w)}
+
+
 def run(tier, seed):
     rep = Report("C02", tier, seed, "other")
+    delimiter_stack_obligations(rep)
     deductive(rep, "C02", FUNCS, "contracts.block")
     lines_universe(rep, "vf.oracles:c02_stream", tier, "MarkdownIt.parse/parseInline", "balanced pairs (kind, tag, markup), level == depth, block flags, merged text, no text_special, tree constructible")
     inline_universe(rep, "vf.oracles:c02_stream", tier, "MarkdownIt.parse/parseInline", "same stream contract on inline-heavy inputs", quick_k=3, thorough_k=4)
@@ -14,7 +83,7 @@ def run(tier, seed):
     gen_universe(rep, "vf.oracles:c02_stream", "vf.universe:gen_emph", tier, "MarkdownIt.parse/render", "same contract on delimiter-heavy inputs (emphasis/strikethrough pairing inside links)",
                  ["commonmark", "cm+table+strike"], "all concatenations of <= k pieces over {*, **, _, ~~, ~, a, space, [, ](x), b}", "delimiter universe")
     gen_universe(rep, "vf.oracles:c02_stream", "vf.universe:gen_emph_links", tier, "MarkdownIt.parse/render", "same contract where a link label holds an autolink (two tag levels) next to delimiter runs",
-                 ["commonmark", "cm+table+strike"], "all concatenations of <= k pieces over {[, ](x), <u:v>, *, *a, **, ~~, ~~a, _, space} that contain a bracket and an autolink", "nested-tag delimiter universe")
+                 ["commonmark", "cm+table+strike"], "all concatenations of <= k pieces over {[, ](x), <ab:c>, *, *a, **, ~~, ~~a, _, space} that contain a bracket and an autolink", "nested-tag delimiter universe")
     from .c17 import add_cons
     add_cons(rep, "C02")
     from .c17 import add_list
